@@ -104,8 +104,9 @@ let canon_rx (d : z list) : z list =
     else d
   end else d
 
-let ll_bytes (l : iphc_ll option) : z list =
-  match l with Some (LlShort a) -> a | Some (LlExtended a) -> a | _ -> []
+(* link-layer address octets, frame octets and polls are the extracted Model/LowpanLive.v definitions
+   (lpl_ll_bytes, lpl_frame_octets / lpl_tx_octets, lpl_poll): the objects of the C20live theorems *)
+let ll_bytes (l : iphc_ll option) : z list = lpl_ll_bytes l
 
 let split_refs (s : string) : z list list =
   if s = "-" then [] else List.map bytes_of_hex (String.split_on_char ',' s)
@@ -171,7 +172,12 @@ let e2e_case (cfg : (string * string) list) (ops : string list) : unit =
                       Printf.printf "f %s first %s %s %s\n" (sz ieee) (sz s) (sz t) (hex_of_bytes f.fr_payload)
                   | SfNext (s, t, o) ->
                       Printf.printf "f %s next %s %s %s %s\n" (sz ieee) (sz s) (sz t) (sz o) (hex_of_bytes f.fr_payload));
-                 (match sixfrag_bytes_of h with Ok hb -> hb @ f.fr_payload | _ -> failwith "frag hdr")) frames in
+                 (match lpl_frame_octets f (repeat_z (zi 0xa5) (iz (lpl_txbuf_len f))) with
+                  | Ok o -> o | _ -> failwith "frag hdr")) frames in
+           (* the composed egress function of the end-to-end theorems gives the same octets *)
+           (match lpl_tx_octets d snd.ll ll_dst (zi snd.tag) (zi 0) (zi 0x5a) with
+            | Ok os when os = pls -> ()
+            | _ -> Printf.printf "dg %s MODEL-TXOCTETS-MISMATCH\n" dir);
            if !fragmented then snd.tag <- (snd.tag + 1) land 0xffff;
            all := !all @ [pls]
          | Err _ -> Printf.printf "dg %s MODEL-ERR\n" dir
@@ -184,7 +190,7 @@ let e2e_case (cfg : (string * string) list) (ops : string list) : unit =
     List.iter (fun pls ->
       let arr = Array.of_list pls in
       List.iter (fun j ->
-        match lp_process_sixlowpan ctx (zi !now) (zi timeout) (ll_bytes snd.ll) (ll_bytes ll_dst) snd.ll ll_dst arr.(j) rcv.slots with
+        match lpl_poll ctx (zi timeout) { ar_time = zi !now; ar_lls = snd.ll; ar_lld = ll_dst; ar_payload = arr.(j) } rcv.slots with
         | Ok (ss, d) ->
             rcv.slots <- ss;
             (match d with Some x -> incr got; Printf.printf "rx %s %s\n" dir (hex_of_bytes x) | None -> ())
@@ -209,8 +215,8 @@ let e2e_case (cfg : (string * string) list) (ops : string list) : unit =
     | "recv" :: _ ->
         let ll_dst = if kv t "bc" = "1" then bcast else llb in
         b.slots <- lpf_remove_expired (zi !now) b.slots;
-        (match lp_process_sixlowpan ctx (zi !now) (zi timeout) (ll_bytes lla) (ll_bytes ll_dst) lla ll_dst
-                 (bytes_of_hex (kv t "pl")) b.slots with
+        (match lpl_poll ctx (zi timeout) { ar_time = zi !now; ar_lls = lla; ar_lld = ll_dst;
+                                            ar_payload = bytes_of_hex (kv t "pl") } b.slots with
          | Ok (ss, d) ->
              b.slots <- ss;
              (match d with Some x -> Printf.printf "rx ab %s\n" (hex_of_bytes (canon_rx x)) | None -> Printf.printf "rx ab -\n")
